@@ -481,7 +481,7 @@ def c10(prop, tier):
 
 
 # thorough tier: how many seeds (concretisations of the same table) each property's drivers run with
-THOROUGH_SEEDS = {"C08": 8, "C18": 8, "C19": 3, "C20": 1, "C15": 1, "C02": 2, "C12": 2, "C09": 2, "C06": 2, "C11": 3, "C13": 1}
+THOROUGH_SEEDS = {"C08": 8, "C18": 8, "C19": 3, "C20": 1, "C15": 1, "C02": 2, "C12": 2, "C09": 3, "C06": 2, "C11": 3, "C13": 1}
 
 
 def multi_check(prop, tier, models, drivers, assumptions, checker_cmd):
